@@ -1,6 +1,7 @@
 import Model.Prg
 import Proofs.Prg
 import Proofs.Uniform
+import Proofs.FisherYates
 
 /-! # C15 — sampling helpers are in range, valid and exactly uniform in the PRG's bits
 
@@ -225,6 +226,96 @@ theorem uintNLoop_first_accept (max size mask : Nat) : ∀ (fuel : Nat) (s s' : 
     · next hgt =>
       exact FirstAccept.miss s s' v hgt (ih _ _ _ h)
 
+/-! ### equal likelihood of the outcomes: Fisher–Yates is injective in its choices -/
+
+open Proofs.FisherYates in
+/-- the loop of `Permutation` is the pure inside-out Fisher–Yates `run` on the vector of its successive draws
+    `j_i = UintN(i+1)`, each `≤ i` -/
+theorem permLoop_run (fuel : Nat) : ∀ (k i : Nat) (s s' : State) (items out : List Nat),
+    permLoop blk fuel k i s items = some (s', out) →
+    ∃ js : List Nat, js.length = k ∧ Valid js i ∧ out = run js i items := by
+  intro k
+  induction k with
+  | zero =>
+    intro i s s' items out h
+    simp only [permLoop] at h
+    cases h
+    exact ⟨[], rfl, trivial, rfl⟩
+  | succ k ih =>
+    intro i s s' items out h
+    simp only [permLoop] at h
+    split at h
+    · cases h
+    · rename_i s1 j hu
+      have hj := uintN_lt blk _ _ _ _ _ hu
+      obtain ⟨js, hl, hv, ho⟩ := ih (i + 1) s1 s' _ out h
+      exact ⟨j :: js, by simp [hl], ⟨by omega, hv⟩, by rw [ho]; rfl⟩
+
+open Proofs.FisherYates in
+/-- `Permutation(n)` returns `run js 0 [0,…,0]` for the vector `js` of its `n` draws -/
+theorem permutation_run (fuel : Nat) (s s' : State) (n : Int) (out : List Nat)
+    (h : permutation blk fuel s n = (s', .ok out)) :
+    ∃ js : List Nat, js.length = n.toNat ∧ Valid js 0 ∧ out = run js 0 (List.replicate n.toNat 0) := by
+  unfold permutation at h
+  split at h; · cases h
+  split at h
+  · rename_i s2 items hrec
+    cases h
+    exact permLoop_run blk fuel n.toNat 0 s s' _ out hrec
+  · cases h
+
+open Proofs.FisherYates in
+/-- **distinct choice vectors give distinct permutations**: the map from the `n!` valid choice vectors
+    (`j_i ≤ i`) to the permutations of `0..n-1` is injective, hence (equal finite cardinalities, `permutation_perm`)
+    a bijection: if the draws are uniform and independent, every permutation has probability `1/n!` -/
+theorem permutation_choices_injective (n : Nat) (js js' : List Nat) (hl : js.length = n) (hl' : js'.length = n)
+    (hv : Valid js 0) (hv' : Valid js' 0)
+    (h : run js 0 (List.replicate n 0) = run js' 0 (List.replicate n 0)) : js = js' :=
+  (run_inj n js js' 0 _ _ (by omega) hv hv' (by omega) (inv_init n) (inv_init n) h).1
+
+open Proofs.FisherYates in
+/-- the loop of `Samples` reports the swaps `(i, i + j_i)` of a valid choice vector, in order -/
+theorem samplesLoop_choices (fuel n : Nat) : ∀ (k i : Nat) (s s' : State) (sw : List (Nat × Nat)),
+    i + k ≤ n → samplesLoop blk fuel n k i s = some (s', sw) →
+    ∃ js : List Nat, js.length = k ∧ SValid n js i ∧
+      sw = (List.range k).map (fun d => (i + d, i + d + js.getD d 0)) := by
+  intro k
+  induction k with
+  | zero =>
+    intro i s s' sw _ h
+    simp only [samplesLoop] at h
+    cases h
+    exact ⟨[], rfl, trivial, rfl⟩
+  | succ k ih =>
+    intro i s s' sw hik h
+    simp only [samplesLoop] at h
+    split at h
+    · cases h
+    · rename_i s1 j hu
+      split at h
+      · cases h
+      · rename_i s2 sw2 hrec
+        have hj := uintN_lt blk _ _ _ _ _ hu
+        obtain ⟨js, hl, hv, ho⟩ := ih (i + 1) s1 s2 sw2 (by omega) hrec
+        cases h
+        refine ⟨j :: js, by simp [hl], ⟨by omega, hv⟩, ?_⟩
+        rw [List.range_succ_eq_map, List.map_cons, List.map_map, ho]
+        congr 1
+        apply List.map_congr_left
+        intro d _
+        simp only [Function.comp, List.getD_cons_succ]
+        congr 1 <;> omega
+
+open Proofs.FisherYates in
+/-- **distinct choice vectors give distinct samples**: applied to any array of `n` distinct elements, two valid
+    choice vectors of `Samples(n, m)` / `Shuffle(n)` that produce the same first `m` positions are equal; so the
+    `n!/(n-m)!` choice vectors give pairwise different ordered samples -/
+theorem samples_choices_injective (n : Nat) (js js' : List Nat) (l : List Nat) (hlen : js.length = js'.length)
+    (hl : l.length = n) (hn : l.Nodup) (hv : SValid n js 0) (hv' : SValid n js' 0)
+    (h : ∀ k (h1 : k < (swaps js 0 l).length) (h2 : k < (swaps js' 0 l).length), k < js.length →
+      (swaps js 0 l)[k] = (swaps js' 0 l)[k]) : js = js' :=
+  swaps_inj n js js' 0 l hlen hl hn hv hv' (fun k h1 h2 _ hk => h k h1 h2 (by omega))
+
 /-- negative or inconsistent sizes are errors and leave the generator untouched -/
 theorem samples_errors (fuel : Nat) (s : State) (n m : Int) (h : m < 0 ∨ n < m) :
     samples blk fuel s n m = (s, .err) := by
@@ -263,3 +354,8 @@ end Props.C15
 #print axioms Props.C15.uintN_candidate
 #print axioms Props.C15.uintN_attempt_uniform
 #print axioms Props.C15.uintNLoop_first_accept
+#print axioms Props.C15.permLoop_run
+#print axioms Props.C15.permutation_run
+#print axioms Props.C15.permutation_choices_injective
+#print axioms Props.C15.samplesLoop_choices
+#print axioms Props.C15.samples_choices_injective
